@@ -89,7 +89,7 @@ for s in range(nseq):
         fresh = views(fk.Pickled(list(p)))
         expect_dumps = b"".join(o.data for o in p).hex() if not str(fresh["dumps"]).startswith("raises") else fresh["dumps"]
         bad = [w for w in which if got[w] != fresh[w]]
-        if "dumps" in which and got["dumps"] != expect_dumps:
+        if got["dumps"] != expect_dumps:
             bad.append("dumps-concat")
         if bad:
             fails.append({"base": name, "bytes": data.hex(), "history": history, "stale_views": bad,
